@@ -8,7 +8,7 @@ import "time"
 func init() {
 	register(&Suite{
 		Name:        "c04",
-		Rule:        "multi-round histories (2-5 rounds, more in thorough) of transactions merged/discarded then SaveChanges(includeDeletes=false)+RecordDeadNodes on the fake RocksDB; after every save every retained root is re-opened on the persistent store alone; every save is additionally crashed at every write index on a clone of the store, re-opened, re-executed and re-saved; explicit crash-save ops do the same on the main store; non-trivial = at least two saved rounds",
+		Rule:        "multi-round histories (2-5 rounds, more in thorough) of transactions merged/discarded then SaveChanges(includeDeletes=false)+RecordDeadNodes on the fake RocksDB; after every save every retained root is re-opened on the persistent store alone; every save is additionally crashed at every write index on a clone of the store, re-opened, re-executed and re-saved; explicit crash-save ops do the same on the main store; three large cases per quick run with change sets of exactly BatchSize-1 .. 2*BatchSize+1 nodes; non-trivial = at least two saved rounds",
 		Gen:         genStoreCase(profC04),
 		CaseTimeout: 120 * time.Second, // generous: a loaded machine must not turn into an oracle failure
 		Run:         func(ops []string) CaseResult { return runStoreCase("C04", ops) },
